@@ -36,15 +36,15 @@ const (
 // executed transactions leave the mempool; the state root is H(prevRoot || txs).
 // It models an external process: it survives restarts of the node.
 type ExecDouble struct {
-	mu       sync.Mutex
-	calls    []ExecCall
-	mempool  [][]byte
-	script   []ExecOutcome // consumed one per ExecuteTxs call; empty = OK
-	finalErr int           // next n SetFinal calls fail
-	Delay    func(kind string)
-	initRoot []byte
-	taken    [][]byte // every tx ever returned by GetTxs (first occurrence order)
-	takenSet map[string]bool
+	mu        sync.Mutex
+	calls     []ExecCall
+	mempool   [][]byte
+	script    []ExecOutcome // consumed one per ExecuteTxs call; empty = OK
+	finalErr  int           // next n SetFinal calls fail
+	Delay     func(kind string)
+	initRoot  []byte
+	taken     [][]byte // every tx ever returned by GetTxs (first occurrence order)
+	takenSet  map[string]bool
 	GetTxsErr int
 	// OnFinal, if set, is called at the start of every SetFinal call (before it is logged).
 	OnFinal func(height uint64)
